@@ -915,15 +915,21 @@ func (c Identifiers[V]) AddArgs(names []string, outersUsed *[]string) Identifier
 		ident, ok := c(name)
 		if outersUsed != nil {
 			if ok && !ident.IsConst {
+				// an attribute of the map given to GenerateWithMap is accessed via
+				// the map, so the map is the outer value which is used
+				used := name
+				if ident.ThisName != "" {
+					used = ident.ThisName
+				}
 				found := false
 				for _, n := range *outersUsed {
-					if n == name {
+					if n == used {
 						found = true
 						break
 					}
 				}
 				if !found {
-					*outersUsed = append(*outersUsed, name)
+					*outersUsed = append(*outersUsed, used)
 				}
 			}
 		}
